@@ -53,7 +53,7 @@ func forEachReuseHistory(evs []reuseEv, depth int, f func(h []reuseEv, id string
 
 // reuseActivations: used by C14 (values, withGrad=false) and C15 (gradients).
 func reuseActivations(c *core.Ctx, withGrad bool) {
-	shapes := [][]int{{3}, {2, 2}, {2}}
+	shapes := [][]int{{4}, {2, 2}, {3}, {1, 4}} // [4], [2,2] and [1,4] share an element count
 	depth := 3
 	acts := []ref.Op{{K: "Relu"}, {K: "LeakyRelu", F: 0.3}, {K: "Sigmoid"}, {K: "TanhAct"}, {K: "Softmax", Dim: 0}}
 	evs := reuseEvents(len(shapes))
@@ -116,7 +116,7 @@ func forwardCase(p *ref.Program) core.Verdict {
 func reuseLosses(c *core.Ctx, withGrad bool) {
 	depth := 3
 	type shp struct{ one, two []int }
-	shapes := []shp{{[]int{3}, []int{2, 2}}, {[]int{2}, []int{1, 3}}, {[]int{4}, []int{2, 1}}}
+	shapes := []shp{{[]int{3}, []int{2, 2}}, {[]int{2}, []int{1, 4}}, {[]int{4}, []int{4, 1}}} // CE shapes share an element count
 	// event.tracked = targets tracked (the prediction is always tracked)
 	evs := reuseEvents(len(shapes))
 	for _, kind := range []string{"MSE", "BCE", "CE"} {
